@@ -8,14 +8,15 @@ import (
 	"github.com/celestiaorg/go-header"
 )
 
-// verifHdr is a placeholder header type for instantiating generic helpers in VerifRangeAmount.
-type verifHdr struct{}
+// verifHdr is a placeholder header type (a bare height) for instantiating generic helpers in VerifRangeAmount and
+// VerifRangesRun.
+type verifHdr struct{ h uint64 }
 
 func (*verifHdr) New() *verifHdr                 { return &verifHdr{} }
 func (h *verifHdr) IsZero() bool                 { return h == nil }
 func (*verifHdr) ChainID() string                { return "" }
 func (*verifHdr) Hash() header.Hash              { return nil }
-func (*verifHdr) Height() uint64                 { return 0 }
+func (h *verifHdr) Height() uint64               { return h.h }
 func (*verifHdr) LastHeader() header.Hash        { return nil }
 func (*verifHdr) Time() time.Time                { return time.Time{} }
 func (*verifHdr) Verify(*verifHdr) error         { return nil }
